@@ -47,8 +47,36 @@ func history(t *rapid.T, c *ev.Case, wrapped, exact bool) {
 	acceptedAtShift := map[uint64]uint64{} // seq -> number of window moves when accepted
 	var moves uint64
 	pendingUnaccepted := false
+	// C04 only: accept callbacks may also be invoked late, after further checks
+	// and accepts ("all histories of check/accept calls"); C05's domain is
+	// "accept before the next check".
+	type pendingCB struct {
+		seq    uint64
+		accept func() bool
+	}
+	var pending []pendingCB
 	n := rapid.IntRange(1, maxSteps).Draw(t, "steps")
 	for i := 0; i < n; i++ {
+		if !exact && len(pending) > 0 && rapid.IntRange(0, 9).Draw(t, "late") < 3 {
+			k := rapid.IntRange(0, len(pending)-1).Draw(t, "which")
+			p := pending[k]
+			pending = append(pending[:k:k], pending[k+1:]...)
+			if wm != nil && !wm.Constrained(p.seq) {
+				continue
+			}
+			wantLatest, _ := m.Accept(p.seq)
+			ev.NoPanic(t, fmt.Sprintf("late accept(%d)", p.seq), func() { p.accept() })
+			t.Logf("step %d: late accept() of %d", i, p.seq)
+			c.Op("late-accept %d", p.seq)
+			c.Label("late-accept")
+			if wantLatest {
+				moves++
+			}
+			if _, seen := acceptedAtShift[p.seq]; !seen || wrapped {
+				acceptedAtShift[p.seq] = moves
+			}
+			continue
+		}
 		seq, kind := genSeq(t, m, window, max, wrapped)
 		want := m.Expect(seq)
 		replayed := m.Replayed(seq)
@@ -125,6 +153,9 @@ func history(t *rapid.T, c *ev.Case, wrapped, exact bool) {
 		}
 		if !doAccept {
 			c.Op("check %d(%s)->%v", seq, kind, ok)
+			if ok && !exact && len(pending) < 3 && rapid.Bool().Draw(t, "keep") {
+				pending = append(pending, pendingCB{seq, accept})
+			}
 			if ok {
 				pendingUnaccepted = true
 				c.Label("unaccepted-ok-check")
@@ -169,13 +200,13 @@ func windowClass(w uint) string {
 	}
 }
 
-const ruleC04 = "rapid-drawn detector configuration (window aimed at 64-bit word boundaries, maximum unrelated to window incl. tiny and 2^64-1) and a history of 1..200 check/accept steps whose numbers are drawn relative to the model state (30% previously accepted numbers); oracle: no successful check of a number accepted before (wrapping: while the newest accepted number is < half the space ahead), none above the maximum, no panic; non-trivial = the history re-checks an accepted number after the window has moved since its acceptance; distinct by hash of configuration+steps"
+const ruleC04 = "rapid-drawn detector configuration (window aimed at 64-bit word boundaries, maximum unrelated to window incl. tiny and 2^64-1) and a history of 1..200 check/accept steps whose numbers are drawn relative to the model state (30% previously accepted numbers), accept invoked immediately, never, or late (after further checks and accepts); oracle: no successful check of a number accepted before (wrapping: while the newest accepted number is < half the space ahead), none above the maximum, no panic; non-trivial = the history re-checks an accepted number after the window has moved since its acceptance; distinct by hash of configuration+steps"
 
 const ruleC05 = "configuration inside the stated domain (max >= window; wrapping: max+1 >= 2*window, max < 2^62), history of 1..200 steps with ~30% of successful checks left un-accepted; every Check result and every accept() return value compared with the reference model (accepted set + newest), both directions; the two numbers nearest the half-space boundary answer 'either' and are never accepted; non-trivial = the history has a check after an un-accepted successful check, a late in-window arrival, or a number within window of 2^64; distinct by hash of configuration+steps"
 
 func TestC04Plain(t *testing.T) {
 	r := ev.New("C04", "plain", ruleC04)
-	r.Essential = []string{"replay-after-shift", "replay/bit-in-partial-top-word", "replay/behind-window", "window%64/33..63"}
+	r.Essential = []string{"replay-after-shift", "replay/bit-in-partial-top-word", "replay/behind-window", "window%64/33..63", "late-accept"}
 	r.MinForEssential = 2000
 	r.Check(t, func(t *rapid.T, c *ev.Case) { history(t, c, false, false) })
 }
